@@ -10,15 +10,37 @@ import vlib
 
 META = {
     'engine': 'lean-D',
-    'technique': 'Lean 4 proofs (invariants by induction over all character streams and registration histories) about a hand model of console.c '
-                 '(console_run as the protothread it is, do_tokenize/find_command/console_register transcribed loop by loop, ring as a bounded FIFO, '
-                 'scripted commands); layout constants generated from the C on every run; model tied to the C by differential runs over structured '
-                 'streams with all three delivery mechanisms',
-    'level_text': 'FILLED BELOW',
-    'level_note': 'FILLED BELOW',
-    'design_ref': '§6 C15, §5 D7 D8 O1',
+    'technique': 'Lean 4 proofs (invariants by induction over all histories of registrations / console_process / console_putchar / scheduler runs / '
+                 'console_eval resumptions; the tokeniser loop shown equal to a left fold and analysed on rendered lines) about a hand model of console.c: '
+                 'console_run as the protothread it is, do_tokenize/find_command/console_register transcribed loop by loop, ring as a bounded FIFO of 15, '
+                 'scripted commands, layout constants generated from the C on every run; model tied to the C by differential runs over structured streams '
+                 'with all three delivery mechanisms, and the C additionally checked against an independent oracle written from the property text',
+    'level_text': 'Proved for all histories and all bytes (kernel-only): buffer_safe (cursor 0..79, every single-byte store of editing and tokenising at offset < 79, '
+                  'buf[79] and everything from the cursor on NUL whenever the console is not inside a command, scratch union never left, table stays 32 slots '
+                  'ending in the sentinel); tokenizer_writes_inside [1,strlen); args_wellformed (1<=argc<=4, argv offsets inside the line, strings end inside it, '
+                  'argv[argc..3] empty); dispatch_exact (any registration order of injectively named commands: find returns the command of exactly that name, else '
+                  'the sentinel); register_full_clean (-1 and table unchanged exactly when 31 names are in, otherwise sorted insertion; 30th user registration fails); '
+                  'line_is_edit (texts tokenised = lines of the edit-stack spec over the characters consumed, for NUL-free input, every delivery mechanism); '
+                  'fourth_takes_rest (O1); process_delivers_all, putchar_delivers_if_drained (<= 15 outstanding), eval_executes_once_and_completes (any NUL-free '
+                  'string < 65536, completes within the bound, every character consumed once in order) from any reachable state in which the console is not inside a command. '
+                  'PARTIAL: tokenize_roundtrip_partial holds for items whose quoted strings do not START with a quote character; the statement as DESIGN.md words it '
+                  '(TokenizeRoundtrip) is DISPROVED in Lean (tokenize_roundtrip_fails, witness cap "\'a" -> a") and recorded as known finding D10; '
+                  'unquoted_simple_split_partial covers <= 4 blank-separated words without trailing blanks (the general UnquotedSimpleSplit is stated, not proved; '
+                  'such lines are covered by fourth_takes_rest + sampling).',
+    'level_note': 'Trusted: Lean kernel (standard axioms only; no bv_decide); the hand model of console.c, validated on every run against the real code '
+                  '(harness #includes console.c, ASan + -fsanitize=bounds, canaries around an exactly-sized console_t, real fibre.c/list.c/messageq.c/ringbuf.c); '
+                  'commands are modelled as scripts (capture, optional scribble over the scratch union, yield k times, exit/fail) plus the built-ins echo/help/unknown '
+                  '- commands that read the ring or keep pointers into scratch are outside the model; libc (strlen, strcmp, isspace for bytes < 128, memset, stdio) '
+                  'is modelled, not verified; the ring buffer is a sequential bounded FIFO here (its lock-freedom is C05) and the scheduler is "run console_run until it '
+                  'waits" (C01); the sorted order of the table is checked by the correspondence run and the oracle, not by a theorem; output text is compared exactly with '
+                  'the model but is not part of any theorem. Sampling only (no theorem): equality of the three delivery mechanisms on overflowing bursts (> 15 outstanding), '
+                  'trailing blanks / more than four words in unquoted lines.',
+    'design_ref': '§6 C15, §5 D7 D8 O1; new finding D10',
 }
-REQUIRED = []          # filled below once the theorems exist
+REQUIRED = ['Librfn.C15.' + t for t in (
+    'layout_ok', 'buffer_safe', 'tokenizer_writes_inside', 'args_wellformed', 'dispatch_exact', 'register_full_clean',
+    'line_is_edit', 'completed_line_is_edit', 'fourth_takes_rest', 'tokenize_roundtrip_partial', 'tokenize_roundtrip_fails',
+    'unquoted_simple_split_partial', 'process_delivers_all', 'putchar_delivers_if_drained', 'eval_executes_once_and_completes')]
 
 R = vlib.REPO
 BL = ' \t'
@@ -625,7 +647,7 @@ def run(ctx):
     ctx.prove(['Librfn.Props.C15'], REQUIRED)
     exe = harness(ctx)
     corpus = load_corpus()
-    nh = 260 if ctx.tier == 'quick' else 6000
+    nh = 500 if ctx.tier == 'quick' else 6000
     hs = corpus + [gen_history(rng, cap) for _ in range(nh)]
     bad = [h for h in hs if not valid(h)]
     if bad:
